@@ -358,7 +358,7 @@ class C05(Prop):
     pid = "C05"
     title = "VA / RVA / typed reads"
     thm_modules = ["PeliteModel.Thm.C05", "PeliteModel.Thm.C05Complete", "PeliteModel.Thm.C05SliceF", "PeliteModel.Thm.C05Ptr"]
-    gens = [gen_img.gen_c05, gen_img.gen_partial_slot, gen_pure.gen_ptr]
+    gens = [gen_img.gen_c05, gen_img.gen_partial_slot, gen_pure.gen_ptr, gen_img.module_twin_cases(gen_img.gen_c05)]
 
     def begin_case(self, case):
         self.last_slice = None
